@@ -49,7 +49,7 @@ void harness_parse_bounds(void)
 	for (size_t i = 0; i < MSGMAX; i++) if (i < n) msg[i] = (char)nd_u8();
 	static struct peer P;
 	int r = parse_message(msg, n, &P);
-	CHECK(r == -1, "C09.unparsable_message_ends_connection");
+	CHECK(r == -1 || r == 0, "C06.unparsable_message_costs_at_most_the_connection");   /* today: -1 (connection dropped); not demanded by a property */
 	CHECK(lib_read_upto <= n, "C09.json_library_reads_only_the_message");
 	free(msg);
 	WITNESS_END();
